@@ -10,6 +10,7 @@
 #include <cds/intrusive/details/base.h>
 #include <cds/sync/spinlock.h>
 #include <cds/os/thread.h>
+#include <cds/algo/int_algo.h>
 #include <cds/details/bit_reverse_counter.h>
 #include <cds/intrusive/options.h>
 #include <cds/opt/buffer.h>
@@ -393,8 +394,9 @@ namespace cds { namespace intrusive {
         /// Return capacity of the priority queue
         size_t capacity() const
         {
-            // m_Heap[0] is not used
-            return m_Heap.capacity() - 1;
+            // m_Heap[0] is not used. The slots of the bottom level are handed out in bit-reversed order,
+            // so only complete heap levels that fit into the heap array can be used
+            return cds::beans::floor2( m_Heap.capacity()) - 1;
         }
 
         /// Returns const reference to internal statistics
